@@ -28,6 +28,18 @@ DRIVER = "drv_c11"
 HARNESS = {"bin": "pvh_c11", "features": "default"}
 THEOREMS = [
     "PV.C11.gen_parenTable_eq",
+    "PV.C11.unparse_shape",
+    "PV.C11.prec_table_ok",
+    "PV.C11.prec_table_exact",
+    "PV.C11.dict_unpack_defect",
+    "PV.C11.parse_unparse_partial",
+    "PV.C11.parse_unparse_partial_at",
+    "PV.C11.inFrag_wf",
+    "PV.C11.unparse_fixpoint",
+    "PV.C11.parse_unparse_fails",
+    "PV.C11.dict_unpack_witness",
+    "PV.C11.float_witness",
+    "PV.C11.fstring_witness",
 ]
 TRUSTED = [
     "Lean 4.33.0 kernel; axioms limited to propext, Classical.choice, Quot.sound",
@@ -725,7 +737,7 @@ FINDING_PROBES = {
     "dict-unpack-operand-below-bitor": ["{**(a or b)}", "{**(a and b)}", "{**(not a)}", "{**(a < b)}",
                                         "{**(a if b else c)}", "{**(lambda: a)}", "{1: 2, **(a or b)}"],
     "float-one-minus-half-ulp-renders-1.0": ["0.9999999999999999", "x + 0.99999999999999989"],
-    "fstring-escape-inside-replacement-field": ["f'''{d['a']}\"'''", "f'''{\"it's\"}'''", "f'''{f\"{f'{x}'}\"}'''",
+    "fstring-escape-inside-replacement-field": ["f'''{d['a']}\"'''", "f'''{f\"{f'{x}'}\"}'''",
                                                 "f\"\"\"{'''\n'''}\"\"\""],
     "fstring-u-kind-dropped": ["u'a' f'{x}'"],
 }
@@ -1254,7 +1266,7 @@ def streams(ctx):
                            "ordered operator pair on both nesting sides; every comparison operator x operand kind"
                            + ("" if ctx.quick else "; every slot-in-slot nesting for six child kinds")))
     rng = ctx.rng("constants")
-    cs = constant_sources(rng, 150 if ctx.quick else 4000)
+    cs = constant_sources(rng, 400 if ctx.quick else 4000)
     out.append(Stream("constants", [req(s) for s in cs], kind="random", nontrivial=lambda r: True,
                       note="float literals (boundary values, random bit patterns, notation switches), huge and "
                            "prefixed ints, imaginary literals, str/bytes literals over an alphabet of quotes, "
@@ -1263,14 +1275,14 @@ def streams(ctx):
     consts = ["0", "1", "42", "1.5", "1e100", "2j", "'s'", '"d"', "b'b'", "'it\\'s'", "0xff", "1_0", "''", "'\\n'",
               "10 ** 20", "1e-7", "3.14j", "'é'", "u'u'"] + cs[:200:7]
     consts = [c for c in consts if " " not in c or c.startswith(("'", '"'))]
-    n = 2500 if ctx.quick else 60000
+    n = 8000 if ctx.quick else 60000
     rs = random_sources(rng, n, consts)
     out.append(Stream("random-expressions", [req(s) for s in rs], kind="random", nontrivial=_nontrivial,
                       note="grammar-directed random expressions over the whole fragment (all node kinds, lambda "
                            "parameter lists, comprehensions, slices, starred, f-strings with specs), random "
                            "redundant parentheses"))
     rng = ctx.rng("stdlib")
-    hs = stdlib_expressions(60 if ctx.quick else 1200, rng, 40 if ctx.quick else 60)
+    hs = stdlib_expressions(150 if ctx.quick else 1200, rng, 40 if ctx.quick else 60)
     out.append(Stream("cpython-stdlib-expressions", [req(s) for s in hs], kind="corpus", nontrivial=_nontrivial,
                       note="expressions harvested from CPython 3.11 standard-library files (ast.unparse-normalised)"))
     return out
